@@ -1,7 +1,8 @@
 (* Single entry point of the extracted model runner: name + argument -> observation. *)
 From Coq Require Import List NArith ZArith Bool.
 From Coq Require Import QArith.
-From NV Require Import Prelude.Str Prelude.Res Prelude.Sx Model.Url Model.Redirect Model.Bucket Model.Ip Model.Titan Model.ServerProto Model.Proxy Model.ClientProto Model.Tofu Model.Session Model.Fs Model.Static Model.CertAuth Model.Certs.
+From NV Require Import Prelude.Str Prelude.Res Prelude.Sx Model.Url Model.Redirect Model.Bucket Model.Ip Model.Titan Model.ServerProto Model.Proxy Model.ClientProto Model.Tofu Model.Session Model.Fs Model.Static Model.Listing Model.CertAuth Model.Certs.
+From NV Require Model.Reload.
 From NV Require Spec.C19 Spec.C16 Spec.C10 Spec.C09 Spec.ServerTrace Spec.C01 Spec.C04 Spec.C07 Spec.C15 Spec.C08 Spec.C17 Spec.C13 Spec.C03 Spec.C12 Spec.C11 Spec.C18 Spec.C02 Spec.C14 Spec.C05.
 Import ListNotations.
 Open Scope N_scope.
@@ -403,6 +404,14 @@ Definition dispatch (name : str) (arg : sx) : sx :=
   else if eqb name (lit "static") then
     (* arg: cfg fs url_path *)
     let f := read_fs (nth_sx 1 arg) in show_sout f (handle (read_scfg (nth_sx 0 arg)) f (as_str (nth_sx 2 arg)))
+  else if eqb name (lit "static.listing_text") then
+    (* arg: fs dir base -> the text of generate_directory_listing(dir, base)  (Model/Listing.v) *)
+    match listing_text format_file_size (read_fs (nth_sx 0 arg)) (read_path (nth_sx 1 arg)) (as_str (nth_sx 2 arg)) with
+    | Some t => L [sT "ok"; A t]
+    | None => L [sT "none"]
+    end
+  else if eqb name (lit "gemtext.size") then A (format_file_size (as_N arg))
+  else if eqb name (lit "gemtext.parent") then A (parent_str (as_str arg))
   else if eqb name (lit "C02.ok") then
     (* arg: root status served(opt path) leaks *)
     sB (Spec.C02.ok (read_path (nth_sx 0 arg)) (as_Z (nth_sx 1 arg)) (read_opath (nth_sx 2 arg)) (as_bool (nth_sx 3 arg)))
@@ -432,5 +441,11 @@ Definition dispatch (name : str) (arg : sx) : sx :=
        compared with the implementation is the string construction - prefix, separator, hex_lower *)
     show_res (fun s => [A s])
       (fingerprint (fun c : str => c) (fun x => x) (fun x => x) (as_str (nth_sx 1 arg)) (as_str (nth_sx 0 arg)))
+  else if eqb name (lit "reload.server_args") then
+    (* arg: sys.argv[2:] of `nauyaca serve ... --reload ...` -> the list `serve` hands to run_with_reload *)
+    L (map A (Model.Reload.server_args (map as_str (as_list arg))))
+  else if eqb name (lit "reload.child_argv") then
+    (* arg: the same -> the command line of the child the supervisor starts, without the interpreter path *)
+    L (map A (tl (Model.Reload.child_argv [] (map as_str (as_list arg)))))
   else L [sT "unknown-model"; A name].
 Close Scope N_scope.
